@@ -304,6 +304,39 @@ def j2(rep, F, S):
             if n.get("k") == "field" and helper is not None and \
                     (n.get("bt") or "").replace("&", "").strip().endswith(helper["name"]):
                 used.add(n["name"])
+        # each component is rebuilt from the key of its own name only (possibly normalised): a component that also
+        # depends on another key is not the value that was written under its key
+        dlets = {}
+        for n in walk(db["body"]):
+            if n.get("k") == "let" and n.get("init") is not None:
+                for q in walk_binds(n["pat"]):
+                    dlets[q["id"]] = n["init"]
+            if n.get("k") == "match":
+                for a_ in n.get("arms") or []:
+                    for q in walk_binds(a_.get("pat")):
+                        dlets.setdefault(q["id"], n["e"])
+
+        def helper_fields(e, depth=0, seen=None):
+            seen = seen if seen is not None else set()
+            out = set()
+            for x in walk(e):
+                if x.get("k") == "field" and helper is not None and \
+                        (x.get("bt") or "").replace("&", "").strip().endswith(helper["name"]):
+                    out.add(x["name"])
+                if x.get("k") == "local" and x.get("id") in dlets and depth < 6 and x["id"] not in seen:
+                    seen.add(x["id"])
+                    out |= helper_fields(dlets[x["id"]], depth + 1, seen)
+            return out
+        for n in walk(db["body"]):
+            if n.get("k") == "struct" and (n.get("path") or n.get("t") or "").endswith(t.rsplit("::", 1)[-1]):
+                for f in n.get("fields") or []:
+                    r["instances"] += 1
+                    src = helper_fields(f["e"])
+                    if src and not src <= {f["name"]}:
+                        rep.add(Finding("J2", db["path"], "mixed:%s" % f["name"],
+                                        "%s::deserialize builds %s from the keys %s: what is read back is not the "
+                                        "value written under that key" % (G.short(t), f["name"], sorted(src)),
+                                        db["file"], n.get("ln")))
         for k in rk:
             if k not in used:
                 rep.add(Finding("J2", db["path"], "unused:%s" % k,
@@ -399,4 +432,46 @@ def j6(rep, F, tms):
                     rep.add(Finding("J6", inst.path, fname,
                                     "%s.%s stores parsed fields in %s: their input order is not kept in JSON"
                                     % (G.short(inst.path), fname, ty), tm.file, inst.ln))
+    return r
+
+
+def j7(rep, F):
+    r = rep.rule("J7", "codec symmetry: a struct component written through a custom function (serialize_with / "
+                       "with) is read through the custom function of the same module, and the other way round; a "
+                       "one-sided codec writes a value its own reader does not invert", floor=8)
+    ser, de = {}, {}
+    rx = re.compile(r"for ([\w:]+(?:<[^>]*>)?)>::(?:serialize|deserialize)")
+    for b in F.bodies:
+        st = b.get("impl_self") or ""
+        if "body" not in b or not ("__SerializeWith" in st or "__DeserializeWith" in st):
+            continue
+        m = rx.search(b["path"])
+        if not m:
+            continue
+        owner = m.group(1)
+        for x in walk(b["body"]):
+            if x.get("k") == "call":
+                f = x.get("f") or ""
+                if f.startswith(("std::", "core::", "alloc::")) or "_serde::" in f:
+                    continue
+                mod = f.rsplit("::", 1)[0]
+                if "__SerializeWith" in st:
+                    ser.setdefault(owner, set()).add((mod, f.rsplit("::", 1)[-1]))
+                else:
+                    de.setdefault(owner, set()).add((mod, f.rsplit("::", 1)[-1]))
+    for owner in sorted(set(ser) | set(de)):
+        sm = {m for m, _ in ser.get(owner, set())}
+        dm = {m for m, _ in de.get(owner, set())}
+        r["instances"] += max(len(sm), len(dm))
+        b = None
+        for cand in F.bodies:
+            if cand.get("impl_self") == owner and (cand.get("impl_trait") or "").endswith("_serde::Serialize"):
+                b = cand
+        for m_ in sorted(sm ^ dm):
+            side = "written" if m_ in sm else "read"
+            rep.add(Finding("J7", owner, "one-sided:%s" % m_,
+                            "%s: a component is %s through %s but not %s through the same module: JSON written by "
+                            "the library is not read back to the same value"
+                            % (G.short(owner), side, m_, "read" if side == "written" else "written"),
+                            b["file"] if b else None, b["line"] if b else None))
     return r
